@@ -142,7 +142,7 @@ def build_trace(kind, ms, obj, X, cap, thr, final, check_valid=True):
         cand = [k for k in range(1, cap + 1) if same_params(fin, params(ms[k]))]
         stop_at = cand[0] if cand else cap
         if not cand:
-            ev.append({"ev": "Iter", "k": cap + 1, "rank": 0, "rel": "na", "guard": True, "valid": True,
-                       "why": "thresholded run matches no capped run"})
+            ev[cap - 1]["valid"] = False
+            ev[cap - 1]["why"] = "the model returned by the thresholded run equals none of the models after 1..%d iterations" % cap
     ev = ev[:stop_at] + [{"ev": "Stop", "k": stop_at, "rank": 0, "rel": "na", "guard": False, "valid": True, "why": ""}]
     return {"kind": kind, "cap": cap, "thr": thr is not None, "dir": "up", "ev": ev, "rank0": rk[0]}
